@@ -6,7 +6,7 @@ from __future__ import annotations
 import ast
 import hashlib
 import os
-from typing import Dict, List, Optional, Tuple, Iterable
+from typing import Set, Dict, List, Optional, Tuple, Iterable
 
 
 class AnalysisError(Exception):
@@ -142,6 +142,7 @@ class Program:
         self.classes: Dict[str, ClassInfo] = {}       # by qual
         self.class_by_name: Dict[str, List[ClassInfo]] = {}
         self.functions: Dict[str, FuncInfo] = {}      # by qual
+        self.requested: Set[str] = set()
         pkgdir = os.path.join(self.root, PKG)
         if not os.path.isdir(pkgdir):
             raise AnalysisError(f"package directory not found: {pkgdir}")
@@ -395,6 +396,7 @@ class Program:
             return self.functions[short]
         c = [f for f in self.functions.values() if f.short == short and not f.module.name.startswith("_fixture")]
         if len(c) == 1:
+            self.requested.add(c[0].qual)     # functions looked up by name: what the rules of this run consult
             return c[0]
         if not c:
             raise AnalysisError(f"subject not found: function {short}")
